@@ -93,3 +93,11 @@ func DriveHoisted(trees []parser.Tree) []string {
 	}
 	return l.Names()
 }
+
+// co-access: the name of an item without a look at its optional part
+func nameOnly(ctx *parser.ItemContext) string {
+	if ctx.Name() == nil {
+		return ""
+	}
+	return ctx.Name().GetText()
+}
